@@ -192,6 +192,17 @@ def family():
         for n in (24, 48, 64):
             out.append(P("symkey_local_v%d_from_key%d" % (v, n), "key-construction", prog([
                 "let _ = PasetoSymmetricKey::<V%d, Local>::from(Key::<%d>::from([0u8; %d]));" % (v, n, n)]), False, "PasetoSymmetricKey<V%d, Local> from Key<%d>" % (v, n)))
+    # v1 keys are DER documents of variable size: no fixed-size key material is ever the right length for them
+    for n in (32, 48, 49, 64):
+        out.append(P("private_key_v1_from_key%d" % n, "key-construction", prog([
+            "let kb = Key::<%d>::from([1u8; %d]); let _ = PasetoAsymmetricPrivateKey::<V1, Public>::from(&kb);" % (n, n)]), False,
+            "PasetoAsymmetricPrivateKey<V1, Public> from &Key<%d>" % n))
+        out.append(P("public_key_v1_from_key%d" % n, "key-construction", prog([
+            "let kb = Key::<%d>::from([2u8; %d]); let _ = PasetoAsymmetricPublicKey::<V1, Public>::from(&kb);" % (n, n)]), False,
+            "PasetoAsymmetricPublicKey<V1, Public> from &Key<%d>" % n))
+    out.append(P("private_key_v1_from_der_slice", "key-construction", prog([
+        "let der: &[u8] = &[0u8; 16]; let _ = PasetoAsymmetricPrivateKey::<V1, Public>::from(der); let _ = PasetoAsymmetricPublicKey::<V1, Public>::from(der);"]), True,
+        "v1 keys from a DER byte slice"))
     for v in (2, 3, 4):
         for n in (32, 48, 49, 64):
             priv_ok = (v in (2, 4) and n == 64) or (v == 3 and n == 48)
